@@ -40,7 +40,9 @@ VerdictMonopole(r) ==
 \* periodic array: rows4 / newrows4 = 4 x cell rows in lattice coordinates before / after (integers)
 VerdictArray(r) ==
     LET dOld == Abs(Det3(r.rows4))  dNew == Abs(Det3(r.newrows4))  n == Len(r.oldid) IN
-    IF (r.nfull - n) * dOld # r.nfull * (dOld - dNew) THEN "number_of_removed_atoms_is_not_implied_by_the_edge_component"
+    IF ~r.ongrid THEN "array_reference_atom_off_the_lattice_grid_for_the_requested_shift"
+    ELSE IF \E a \in 1..Len(r.ref) : ~\E b \in 1..Len(r.basis) : Congr(r.ref[a], r.basis[b], r.dd) THEN "array_reference_atom_is_not_an_atom_of_the_shifted_perfect_crystal"
+    ELSE IF (r.nfull - n) * dOld # r.nfull * (dOld - dNew) THEN "number_of_removed_atoms_is_not_implied_by_the_edge_component"
     ELSE IF r.pbc # [i \in 1..3 |-> i # r.cut] THEN "array_not_periodic_in_the_two_slip_plane_directions_only"
     ELSE IF \E a \in 1..n : r.oldid[a] < 0 \/ r.oldid[a] >= r.nfull THEN "old_id_out_of_range"
     ELSE IF \E a \in 1..n : \E b \in (a+1)..n : r.oldid[a] = r.oldid[b] THEN "two_atoms_map_to_the_same_reference_atom"
